@@ -289,10 +289,10 @@ pub struct RouteHop { pub short_channel_id: u64, pub fee_msat: u64, pub cltv_exp
 //@ensures P C16 every-hop-of-a-returned-path-is-given-the-cltv-delta-its-next-hops-channel-requires-and-the-last-hop-the-final-delta-nothing-else-about-the-hops-changes
     final(hops)@.len() == old(hops)@.len(),
     forall|k: int| 0 <= k < old(hops)@.len() ==> #[trigger] final(hops)@[k] == (RouteHop { cltv_expiry_delta: if k + 1 == old(hops)@.len() { final_cltv_delta } else { old(hops)@[k + 1].cltv_expiry_delta }, ..old(hops)@[k] }),
-//@mutant cltv_deltas_not_shifted
-    core::mem::replace(&mut hop.cltv_expiry_delta, prev_cltv_expiry_delta)
+//@mutant last_hop_given_no_final_delta
+    fold(final_cltv_delta,
 //@with
-    core::mem::replace(&mut hop.cltv_expiry_delta, hop.cltv_expiry_delta)
+    fold(0,
 //@end
 // ---- the fee cap is applied to the finished route ----
 //@extract lightning/src/routing/router.rs :: fn get_route
